@@ -210,7 +210,7 @@ def _window_rules(rep, prog):
     for n in FB.nodes(kind='assign'):
         if cppflow.mentions(n.stmt[1], 'toallevents') and n.stmt[2][0] != 'num':
             for b2 in FB.nodes(kind='branch'):
-                c = b2.stmt[1]
+                c = FB.resolve_flags(b2.stmt[1])
                 if FB.dominates(b2, n) and n.id in FB.reach(b2.succ[0]) and n.id not in FB.reach(b2.succ[1]):
                     eqs = [x for x in ir.subexprs(c) if x[0] == 'op' and x[1] == '==' and cppflow.mentions(x, 'modebb')]
                     if eqs and all(y[0] == 'op' and y[1] in ('or', '==') for y in ir.subexprs(c)
